@@ -338,9 +338,10 @@ class GriffeLoader:
                         continue
 
                 # Try getting the module from which every public object is imported.
+                # The path of the module can go through aliases that cannot be resolved.
                 try:
                     target = self.modules_collection.get_member(member.target_path)  # type: ignore[union-attr]
-                except KeyError:
+                except (KeyError, AliasResolutionError, CyclicAliasError):
                     logger.debug(
                         "Could not expand wildcard import %s in %s: %s not found in modules collection",
                         member.name,
